@@ -4,6 +4,8 @@ import re
 from ..mir import Callee, last_seg, loc, op_place
 from .common import gates_of_value, returns_variant
 
+ADDR = "protocol::address::Address"
+
 EXPLANATION = (
     "D1 in every relay function the two direction futures are combined by a first-error-wins join (the try_join! poll closure tests is_err and "
     "takes the error) and every return of both direction futures is an Err value, so that a clean close of one direction also ends the other. "
@@ -69,13 +71,23 @@ def run(ctx):
             fw = [(blk, c, t) for (blk, c, t) in p.calls() if c.name == "StreamExt::forward"]
             ctx.ob("D2", p.defp, "pump-uses-forward", loc(p.sp), len(fw) == 1, f"{len(fw)} forward call(s)")
         ctx.ob("D2", root, "two-directions", loc(prog.body(root).sp), len(pumps) == 2, f"{len(pumps)} pump futures")
-    # QUIC close after relay
-    q = [b for b in bodies if "template::quic::relay" in b.defp and any(c.target.endswith("template::relay_to") for (_, c, _) in b.calls())]
+    # QUIC close after relay: in every function that closes a QuicStream, the first-item handler (the relay of that flow) runs before the close
+    from .common import first_item_handlers
+    enum_it, addressed, handlers = first_item_handlers(prog)
+    hroots = {fb.root for (fb, _) in handlers}
+    q = []
+    for b in bodies:
+        if b.method == "close" and "QuicStream" in (b.impl_self_def or ""):
+            continue
+        if any(c.name == "QuicStream::close" for (_, c, _) in b.calls()):
+            q.append(b)
     ctx.floor("D2", "QUIC relay body", 1, len(q))
     for b in q:
-        closes = [(blk, c, t) for (blk, c, t) in b.calls() if c.name == "QuicStream::close"]
-        relays = [(blk, c, t) for (blk, c, t) in b.calls() if c.target.endswith("template::relay_to")]
-        ok = bool(closes) and bool(relays) and all(b.dominates(rb, cb) for (rb, _, _) in relays for (cb, _, _) in closes)
+        fb = prog.flat(b.defp)
+        closes = [blk for (blk, c, t) in fb.calls() if c.name == "QuicStream::close"]
+        relay_blocks = [i for i in fb.rpo() if prog.body(fb.origin[i]).root in hroots]
+        ok = bool(closes) and bool(relay_blocks) and all(any(fb.dominates(rb, cb) for rb in relay_blocks) for cb in closes) and \
+            not any(fb.can_reach(cb, rb) for cb in closes for rb in relay_blocks[:1])
         ctx.ob("D2", b.defp, "quic-close-after-relay", loc(b.sp), ok, "QuicStream::close (finish + wait for stop) follows the relay" if ok else "the QUIC stream is not closed after the relay")
     qc = [b for b in bodies if "QuicStream::close" in prog.display(b.defp) and any(c.method in ("finish", "stopped") for (_, c, _) in b.calls())]
     ctx.floor("D2", "QuicStream::close body", 1, len(qc))
@@ -84,33 +96,29 @@ def run(ctx):
         ctx.ob("D2", b.defp, "quic-finish-and-stopped", loc(b.sp), "finish" in names and "stopped" in names, f"close() calls {[n for n in names if n in ('finish', 'stopped')]}")
 
     # ---------------- D3 -----------------------------------------------------------------------------
-    first = [b for b in bodies if "template::relay_to" in b.defp and b.kind != "Fn"]
-    ctx.floor("D3", "server first-item handler", 1, len(first))
-    for b in first:
-        for (blk, c, t) in b.calls():
-            if c.name in ("TcpStream::connect", "UdpSocket::bind") or c.method == "to_socket_addr":
-                # follow the awaited result to its Result gate
-                gs = [g for g in gates_of_value(b, t["dest"][0]) if g.kind == "result"]
-                if c.name != "Address::to_socket_addr" and not gs:
-                    # awaited future: the result appears after poll -> search gates on any Result local derived forward
-                    carriers, calls, sw = b.slice_fwd([t["dest"][0]])
-                    for l in carriers:
-                        gs += [g for g in gates_of_value(b, l) if g.kind == "result"]
+    ctx.floor("D3", "server first-item handler", 1, len(handlers))
+    for (fb, binds) in handlers:
+        relay_calls = {"StreamExt::forward", "SinkExt::send", "SinkExt::feed", "SinkExt::send_all"}
+        for (blk, c, t) in fb.calls():
+            dty = fb.local_ty(t["dest"][0])
+            resolves = "Result<std::net::SocketAddr" in dty and any(ADDR in fb.local_ty(op_place(a)[0]) for a in t["args"] if op_place(a))
+            if c.name in ("TcpStream::connect", "UdpSocket::bind") or resolves:
+                gs = [g for g in gates_of_value(fb, t["dest"][0]) if g.kind == "result"]
                 seen = set()
                 for g in gs:
                     if g.block in seen:
                         continue
                     seen.add(g.block)
                     err_t = g.target_for(1)
-                    reach = b.reach_from(err_t)
+                    reach = fb.reach_from(err_t)
                     bad = []
                     for x in reach:
-                        tt = b.term(x)
+                        tt = fb.term(x)
                         if tt and tt["k"] == "call":
                             cc = Callee(tt["f"])
-                            if "relay_" in cc.target and "bidirectional" in cc.target or cc.target.endswith("spawn::spawn"):
+                            if cc.name in relay_calls or cc.target.endswith("spawn::spawn"):
                                 bad.append(cc.name)
-                    ctx.ob("D3", b.defp, f"{c.method}-failure-drops-inbound", loc(t["sp"]), not bad, "failure edge reaches the function end without relaying" if not bad else f"failure edge still reaches {bad}")
+                    ctx.ob("D3", fb.root, f"{c.method}-failure-drops-inbound", loc(t["sp"]), not bad, "failure edge reaches the function end without relaying" if not bad else f"failure edge still reaches {sorted(set(bad))}")
     # ---------------- D4 -----------------------------------------------------------------------------
     holders = []
     for it in prog.items:
